@@ -46,7 +46,8 @@ Inductive ucall :=
 | UMint (to : N) (x : Z)
 | UMode (m : N)
 | UKill
-| UOther.
+| UOther
+| USpend (owner : N) (x : Z).   (* transferFrom(owner, caller, x): the caller spends an allowance on [owner]'s tokens *)
 
 (** one CALL made by the script contract inside a single Ethereum transaction *)
 Inductive bcall :=
@@ -111,9 +112,14 @@ Inductive op :=
 | Recv (mint smod : bool) (esc b : N) (x : Z)   (* OnRecvPacket after the ICS-20 credit *)
 | Ack (success mint : bool) (esc b : N) (x : Z) (* OnAcknowledgementPacket after the ICS-20 refund *)
 | Timeout (mint : bool) (esc b : N) (x : Z)
-| Batch (a : N) (cs : list bcall).          (* ONE signed Ethereum transaction of [a] to the script contract, which makes
+| Batch (a : N) (cs : list bcall)           (* ONE signed Ethereum transaction of [a] to the script contract, which makes
                                                the calls [cs] in order (its receipt carries the logs of all of them),
                                                then PostTxProcessing *)
+| Spend (owner : N) (x : Z).                (* the beneficiary of the allowances the delayed-malicious token hands out
+                                               ([THIEF]: an address nobody in the harness holds a key for) calls
+                                               token.transferFrom(owner, THIEF, x): a keeper-level CallEVM from that
+                                               address (ApplyMessage with commit, NO PostTxProcessing hook); the
+                                               harness refuses x <= 0 without calling anything *)
 
 (** * spellings of the string fields of a message
 
@@ -435,6 +441,12 @@ Section Model.
         if success then (s, OK) else ibc_refund s mint esc b x
     | Timeout mint esc b x => ibc_refund s mint esc b x
     | Batch a cs => batch_tx s a cs
+    | Spend a x =>
+        if x <=? 0 then (s, EOther) else
+        match call_user tk (tok s) THIEF (USpend a x) with
+        | None => (s, EOther)
+        | Some (t1, _) => (set_tok s t1, OK)
+        end
     end.
 
   Definition run (ops : list op) (s : st T) : st T := fold_left (fun s o => fst (step s o)) ops s.
@@ -561,13 +573,59 @@ Definition siphon_transfer (l : ledger) (from to : N) (x : Z) : option (ledger *
                      end
   end.
 
-(** contracts/ERC20MaliciousDelayed.sol: an allowance for the thief (Approval log), then the transfer *)
+(** contracts/ERC20MaliciousDelayed.sol: an allowance for the thief (Approval log), then the transfer;
+    this is the ledger part only (used by the spelling theorems); [approve_token] below also keeps
+    the allowances and is the instance the correspondence runs *)
 Definition approve_transfer (l : ledger) (from to : N) (x : Z) : option (ledger * list log) :=
   if N.eqb to ZERO then None else
   match std_transfer l from to x with
   | None => None
   | Some (l1, g) => Some (l1, mklog LApproval to THIEF (10 ^ 18) :: g)
   end.
+
+(** the same contract WITH the allowances it hands out: [aallow] = allowance(owner, THIEF) per owner
+    (nobody else ever gets one: the holders never call approve).  transfer(recipient, x) sets
+    allowance(recipient, THIEF) = 10^18 (ERC20._approve overwrites) and then transfers;
+    transferFrom(owner, caller, x) is OpenZeppelin's: the caller's allowance on [owner]'s tokens must
+    cover x, is lowered by x (10^18 is not the infinite allowance), then ERC20._transfer. *)
+Record apl := mkapl { al : ledger; aallow : gmap N Z }.
+Definition BIGNUM : Z := 10 ^ 18.
+
+Definition apl_lift (t : apl) (r : option (ledger * list log)) : option (apl * list log) :=
+  match r with None => None | Some (l1, g) => Some (mkapl l1 (aallow t), g) end.
+
+Definition apl_transfer (t : apl) (from to : N) (x : Z) : option (apl * list log) :=
+  match approve_transfer (al t) from to x with
+  | None => None
+  | Some (l1, g) => Some (mkapl l1 (zset (aallow t) to BIGNUM), g)
+  end.
+
+Definition apl_spend (t : apl) (spender owner : N) (x : Z) : option (apl * list log) :=
+  let a := if N.eqb spender THIEF then zget (aallow t) owner else 0 in
+  if (x <? 0) || (a <? x) then None else
+  match std_transfer (al t) owner spender x with
+  | None => None
+  | Some (l1, g) => Some (mkapl l1 (if N.eqb spender THIEF then zset (aallow t) owner (a - x) else aallow t), g)
+  end.
+
+Definition approve_token : token apl := mktoken apl
+  (fun _ => true)
+  (fun t a => Some (zget (lbal (al t)) a))
+  (fun t => Some (ltotal (al t)))
+  (fun t to x => apl_lift t (std_mint (al t) MODULE to x))
+  (fun _ _ _ => None)
+  (fun t x => apl_lift t (std_burn (al t) MODULE x))
+  (fun t caller to x => match apl_transfer t caller to x with
+                        | None => None
+                        | Some (t1, g) => Some (t1, Some true, g)
+                        end)
+  (fun t caller c => match c with
+                     | UTransfer to x => apl_transfer t caller to x
+                     | UBurn x => apl_lift t (std_burn (al t) caller x)
+                     | UMint to x => apl_lift t (std_mint (al t) caller to x)
+                     | USpend owner x => apl_spend t caller owner x
+                     | _ => None
+                     end).
 
 (** ERC20PresetMinterPauser with an overridden transfer: no burnCoins *)
 Definition preset_token (tr : ledger -> N -> N -> Z -> option (ledger * list log)) : token ledger := mktoken ledger
@@ -664,6 +722,7 @@ Definition cham_token : token cham := mktoken cham
      | UMode m => Some (mkcham m (cb c) (ctot c) (calive c), [])
      | UKill => Some (mkcham 0 ∅ 0 false, [])
      | UOther => Some (c, [])
+     | USpend _ _ => Some (c, [])          (* no such selector: STOP *)
      end).
 
 (** hand-assembled, NOT registered: a token without a ledger: transfer / transferFrom emit
@@ -876,8 +935,8 @@ Definition check_hist (kind : N) (h : list (spell * op * obs)) : option nat :=
   | 1%N => check_from honest_token 0 (init false ∅ 0 (mkledger ∅ 0 DEPLOYER)) h
   | 2%N => check_from (preset_token siphon_transfer) 0
              (init false ∅ 0 (mkledger {[DEPLOYER := init_supply]} init_supply DEPLOYER)) h
-  | 3%N => check_from (preset_token approve_transfer) 0
-             (init false ∅ 0 (mkledger {[DEPLOYER := init_supply]} init_supply DEPLOYER)) h
+  | 3%N => check_from approve_token 0
+             (init false ∅ 0 (mkapl (mkledger {[DEPLOYER := init_supply]} init_supply DEPLOYER) ∅)) h
   | 4%N => check_from const_token 0 (init false ∅ 0 tt) h
   | 5%N => check_from fakelog_token 0 (init false ∅ 0 tt) h
   | 6%N => check_from cham_token 0 (init false ∅ 0 (mkcham 0 ∅ 0 true)) h
